@@ -49,6 +49,19 @@ def gen_streams(rng, tier):
             base[i] ^= m
             base[j] ^= m
         yield "xorpair", bytes(base) + fg.mk(25)
+    # 3b. multi-byte corruptions over the WHOLE frame, the end delimiter included: the same delta on the last byte and
+    #     on one other byte, and the same delta on 2..4 arbitrary positions (an even number keeps the XOR of everything)
+    for _ in range(150 if quick else 5000):
+        base = bytearray(fg.mk(rng.choice(fg.FRAME_TYPES), fg.salted_payload(rng, rng.randint(0, 12)),
+                               rng.choice([86, 0]), rng.choice(fg.DEVICES)))
+        m = rng.choice([rng.randrange(1, 256), rng.randrange(1, 256), 0x16, 0x68 ^ 0x16, 0x01, 0x80])
+        if rng.random() < 0.5:
+            pos = [len(base) - 1, rng.randrange(len(base) - 1)]
+        else:
+            pos = rng.sample(range(len(base)), rng.choice([2, 2, 3, 4]))
+        for i in pos:
+            base[i] ^= m
+        yield "xormulti", bytes(base) + (fg.mk(25) if rng.random() < 0.7 else b"")
     # 4. XOR-of-prefix is zero with a non-zero stored byte; stored byte zero with non-zero XOR
     for _ in range(150 if quick else 5000):
         pl = bytearray(fg.salted_payload(rng, rng.randint(1, 10)))
@@ -125,7 +138,7 @@ def run(ctx):
     rng = random.Random(ctx["seed"] * 7919 + 1)
     res = Result("C01")
     res.rule = ("streams: every frame kind x boundary payload sizes; single-byte corruptions at every position; "
-                "XOR-preserving paired flips; XOR-zero / stored-zero checksum corruptions; truncations at every length; "
+                "XOR-preserving paired flips; the same delta on 2-4 positions of the whole frame incl. the end delimiter; XOR-zero / stored-zero checksum corruptions; truncations at every length; "
                 "noise (uniform, delimiter-dense, header-shaped); mixed streams; each under 3 chunkings. "
                 "distinct = distinct stream bytes; non-trivial = contains a start delimiter followed by >= 6 bytes")
     cases = []
@@ -143,26 +156,8 @@ def run(ctx):
             obs_by_chunk.append((cuts if len(cuts) < 12 else "1-byte", lazy, reader.read_all(s, cuts, lazy)))
         impl.append(obs_by_chunk)
     answers = driver_batch("read " + hexs(s) for _, s in cases)
-    # judge requests for everything the implementation delivered
-    judge_reqs = []
-    judge_idx = []
-    for ci, ((label, s), obs_by_chunk) in enumerate(zip(cases, impl)):
-        for (cuts, lazy, obs) in obs_by_chunk[:1] if all(o[2] == obs_by_chunk[0][2] for o in obs_by_chunk) else obs_by_chunk:
-            pos = 0
-            for o in obs:
-                n = o[-2] if o[0] == "D" else o[-1]
-                if o[0] == "D":
-                    judge_reqs.append(f"c01judge {hexs(s[pos:pos + n])} {o[1]} {o[2]} {o[3]} {o[4]} {o[5]} {o[6]}")
-                    judge_idx.append((ci, cuts, pos, n, o))
-                pos += n
-    verdicts = driver_batch(judge_reqs)
-    for (ci, cuts, pos, n, o), v in zip(judge_idx, verdicts):
-        if v != "pass":
-            label, s = cases[ci]
-            res.fail("spec", dict(stream=s.hex(), cuts=list(cuts) if cuts != "1-byte" else "1-byte", label=label),
-                     "no delivery, or a delivery justified by the consumed bytes",
-                     dict(delivered=list(o), consumed=s[pos:pos + n].hex(), judge=v),
-                     "delivered frame is not justified by the bytes consumed for it (C01.spec)")
+    judge(res, cases, impl)
+    differing = []
     for (label, s), obs_by_chunk, ans in zip(cases, impl, answers):
         model = reader.canon_model(reader.parse_model(ans)) if ans != "bad-op" else None
         nontrivial = any(s[i] == 0x68 and len(s) - i > 6 for i in range(len(s)))
@@ -175,11 +170,75 @@ def run(ctx):
             if ci != model:
                 res.fail("corr", dict(stream=s.hex(), cuts=list(cuts) if cuts != "1-byte" else "1-byte", lazy=lazy, label=label),
                          model, ci, "reader model and FrameReader.read() differ")
+                if s not in differing:
+                    differing.append(s)
         if len(res.samples) < 6 and label in ("xorzero", "corrupt1", "mixed", "valid", "noise", "trunc"):
             if not any(x["label"] == label for x in res.samples):
                 res.sample(dict(label=label, stream=s.hex(), observed=[list(o) for o in reader.canon_impl(obs_by_chunk[0][2])]))
     res.extra["chunkings_per_stream"] = 3
+    if differing and not any(f["kind"] == "spec" for f in res.failures):
+        neighbourhood(res, rng, differing)
     return res
+
+
+def judge(res, cases, impl):
+    """C01.spec (Lean judge) on everything the implementation delivered: the delivery must be justified by the bytes
+    the call consumed"""
+    judge_reqs = []
+    judge_idx = []
+    for ci, ((label, s), obs_by_chunk) in enumerate(zip(cases, impl)):
+        for (cuts, lazy, obs) in obs_by_chunk[:1] if all(o[2] == obs_by_chunk[0][2] for o in obs_by_chunk) else obs_by_chunk:
+            pos = 0
+            for o in obs:
+                n = o[-2] if o[0] == "D" else o[-1]
+                if o[0] == "D":
+                    judge_reqs.append(f"c01judge {hexs(s[pos:pos + n])} {o[1]} {o[2]} {o[3]} {o[4]} {o[5]} {o[6]}")
+                    judge_idx.append((ci, cuts, pos, n, o))
+                pos += n
+    verdicts = driver_batch(judge_reqs)
+    hits = 0
+    for (ci, cuts, pos, n, o), v in zip(judge_idx, verdicts):
+        if v != "pass":
+            hits += 1
+            label, s = cases[ci]
+            res.fail("spec", dict(stream=s.hex(), cuts=list(cuts) if cuts != "1-byte" else "1-byte", label=label),
+                     "no delivery, or a delivery justified by the consumed bytes",
+                     dict(delivered=list(o), consumed=s[pos:pos + n].hex(), judge=v),
+                     "delivered frame is not justified by the bytes consumed for it (C01.spec)")
+    return hits
+
+
+def neighbourhood(res, rng, differing, budget=6000):
+    """Model and implementation differ on some streams but every delivery so far is justified: search the neighbourhood of
+    the first differing streams for a delivery that is NOT justified -- every single-byte substitution by a few values and
+    the same XOR delta on every pair of positions of the stream (start, length, addressing, checksum and end bytes included)."""
+    cases = []
+    for s in sorted(differing, key=len)[:4]:
+        s = s[:96]
+        n = len(s)
+        deltas = [0x01, 0x80, 0xFF, rng.randrange(1, 256), rng.randrange(1, 256)]
+        for i in range(n):
+            for d in deltas + [s[i] ^ 0x68, s[i] ^ 0x16, s[i]]:
+                if d:
+                    b = bytearray(s)
+                    b[i] ^= d
+                    cases.append(("near1", bytes(b)))
+        pairs = [(i, j) for i in range(n) for j in range(i + 1, n)]
+        if len(pairs) * len(deltas) > budget // 2:
+            pairs = rng.sample(pairs, budget // (2 * len(deltas)))
+        for i, j in pairs:
+            for d in deltas:
+                b = bytearray(s)
+                b[i] ^= d
+                b[j] ^= d
+                cases.append(("near2", bytes(b)))
+    cases = cases[:budget]
+    impl = [[((), False, reader.read_all(s))] for _, s in cases]
+    for _, s in cases:
+        res.case(s, True)
+    res.count("label:neighbourhood-of-a-difference", len(cases))
+    res.extra["neighbourhood_search"] = dict(streams=len(cases), around=[s.hex() for s in sorted(differing, key=len)[:4]],
+                                             unjustified_deliveries=judge(res, cases, impl))
 
 
 def replay(ctx):
